@@ -103,6 +103,9 @@ def case_strategy(kinds=("inject", "inject", "inject", "natural", "hook")):
             spec["bad"] = draw(st.sampled_from(["name-position", "pos-vs-kw", "stored-call_next", "unreadable", "varargs"]))
             spec["at"] = draw(st.integers(0, n))
             spec["after_use"] = draw(st.booleans())
+            # while the invalid method is there, a VALID method is taken out and put back (the number of methods
+            # returns to what it was when the function last built)
+            spec["swap"] = draw(st.integers(0, 2)) == 0
         else:
             spec["hook"] = draw(st.sampled_from(["class_check", "type_order", "condition"]))
             spec["nth"] = draw(st.integers(1, 12))
@@ -467,6 +470,30 @@ def run_natural(spec):
                                 "C18:partial-table-in-service",
                             )
                             return res
+            if spec.get("swap") and len(ids) >= 2:
+                v = ids[-1]
+                rest = [m for m in methods if m["id"] != v]
+                r = capture(prog.ov.unregister, prog.fns[v])
+                if r.kind not in ("ok", "config"):
+                    res.fail(f"unregistering a valid method while the invalid one ({kind}) is registered: {r.brief()}", None)
+                    return res
+                res.label("valid-method-swapped-out-under-invalid-one")
+                if bad_is_detectable(kind, rest):
+                    # (the invalid method is invalid on its own, or still clashes with the remaining ones)
+                    for p in spec["probes"]:
+                        got, out = observe(prog, p, env, None)
+                        if got[0] != "config":
+                            res.fail(
+                                f"invalid method ({kind}) registered, then the valid method m{v} unregistered: probe "
+                                f"{p['args']} gives {got} ({out.detail[:160]}) instead of a configuration error - the set "
+                                f"that is registered now was never built", "C18:partial-table-in-service")
+                            return res
+                r = capture(prog.register, v)
+                if r.kind not in ("ok", "config"):
+                    res.fail(f"re-registering m{v} while the invalid method ({kind}) is registered: {r.brief()}", None)
+                    return res
+                ids = [i for i in ids if i != v] + [v]
+                valid_expected = fresh_expect(pspec, env, ids, spec["probes"])
             r = capture(prog.ov.unregister, bad)
             if r.kind != "ok":
                 res.fail(f"unregistering the invalid method failed: {r.brief()}", None)
